@@ -472,8 +472,11 @@ def execute(plan):
                 if nst:
                     evaluated += 1
                     if plan["command"]["verbose"]:
-                        if len(lines) - len(lines2) != nst:
-                            viol("C10.count", None, dict(site, extra_lines=len(lines) - len(lines2)), "-v printed %d extra stderr lines for %d skipped rows" % (len(lines) - len(lines2), nst))
+                        # "each one with -v": one stderr line per skipped row; up to two further lines (a summary, a closing count) are
+                        # wording the property does not fix.  Fewer lines, or lines that grow with the number of VALID rows, are not.
+                        extra_lines = len(lines) - len(lines2)
+                        if not (nst <= extra_lines <= nst + 2):
+                            viol("C10.count", None, dict(site, extra_lines=extra_lines), "-v printed %d extra stderr lines for %d skipped rows" % (extra_lines, nst))
                     else:
                         import re
 
